@@ -228,6 +228,27 @@ class Facts:
             return self.eval(e.value)
         if isinstance(e, ast.Constant):
             return bool(e.value)
+        if isinstance(e, ast.BinOp) and isinstance(e.op, ast.Add):
+            # a sum of counts (assumed non-negative) is non-zero as soon as
+            # one term is, zero when every term is
+            l, r = self.eval(e.left), self.eval(e.right)
+            if l is True or r is True:
+                return True
+            if l is False and r is False:
+                return False
+            return None
+        if isinstance(e, ast.Name) and self.fn is not None:
+            try:
+                t = _strip(inline_locals(self.fn, e))
+            except Exception:
+                t = e.id
+            if t != e.id:
+                try:
+                    v = self.eval(ast.parse(t, mode='eval').body)
+                except SyntaxError:
+                    v = None
+                if v is not None:
+                    return v
         if isinstance(e, ast.Call) and norm(e.func) == 'isinstance' and \
                 len(e.args) == 2 and norm(e.args[0]) in self.inst:
             isa = self.inst[norm(e.args[0])]
@@ -379,7 +400,10 @@ def _related(t: ast.expr, facts: Facts, subjects, depth: int = 3,
             for x in ast.walk(facts.fn):
                 if isinstance(x, ast.Assign) and any(
                         isinstance(tt, ast.Name) and tt.id in roots
-                        for tg in x.targets for tt in ast.walk(tg)):
+                        for tg in x.targets
+                        for tt in ([tg] if isinstance(tg, ast.Name) else (
+                            tg.elts if isinstance(tg, (ast.Tuple, ast.List))
+                            else []))):
                     # through a local only the very same quantity counts
                     if _related(x.value, facts, subjects, depth - 1, True):
                         return True
